@@ -145,6 +145,9 @@ def run(oracles, trace=None, gen=None, rng=None, max_steps=40, vid_knobs=None, s
             rec = trace[i]
         else:
             rec = gen.next(env.world)
+            # execute exactly what a replay will execute: the JSON image of the record (fresh
+            # string / list objects, never the generator's own literals)
+            rec = json.loads(json.dumps(rec))
             if vid_knobs:
                 pol = rng.choices(["fresh", "lifo", "adv"], vid_knobs)[0]
                 if pol != "fresh":
